@@ -112,6 +112,10 @@ func Generate(o Options) (overlayPath string, summary []string, err error) {
 		files[rel] = w
 		return w, nil
 	}
+	// Any other non-test file of runtime/ or lib/ that uses sync.Mutex,
+	// channels or go statements (e.g. one added by a later change) is driven
+	// too; constructs the rewriter cannot express still make it fail loudly.
+	o.SyncFiles = append(o.SyncFiles, discoverSyncFiles(o)...)
 	for _, rel := range o.SyncFiles {
 		w, e := load(rel)
 		if e != nil {
@@ -1239,4 +1243,51 @@ func (w *fileRW) markIdentUses(match func(*ast.Ident) bool, loc func(*ast.Ident)
 		doStmt(fd.Body)
 	}
 	return count
+}
+
+// discoverSyncFiles lists the files of runtime/ and lib/ (non-test, not
+// already listed, not explicitly allowed to keep their primitives) that
+// contain a go statement, a channel type or a sync.* selector.
+func discoverSyncFiles(o Options) []string {
+	known := map[string]bool{}
+	for _, rel := range o.SyncFiles {
+		known[rel] = true
+	}
+	for _, rel := range o.AllowSync {
+		known[rel] = true
+	}
+	var out []string
+	for _, top := range []string{"runtime", "lib"} {
+		filepath.Walk(filepath.Join(o.Repo, top), func(p string, info os.FileInfo, err error) error {
+			if err != nil || info.IsDir() || !strings.HasSuffix(p, ".go") || strings.HasSuffix(p, "_test.go") {
+				return nil
+			}
+			rel, _ := filepath.Rel(o.Repo, p)
+			if known[rel] || strings.HasPrefix(rel, "lib/golib") {
+				return nil
+			}
+			fset := token.NewFileSet()
+			f, e := parser.ParseFile(fset, p, nil, 0)
+			if e != nil {
+				return nil
+			}
+			uses := false
+			ast.Inspect(f, func(n ast.Node) bool {
+				switch x := n.(type) {
+				case *ast.GoStmt, *ast.ChanType, *ast.SelectStmt:
+					uses = true
+				case *ast.SelectorExpr:
+					if id, ok := x.X.(*ast.Ident); ok && (id.Name == "sync" || id.Name == "atomic") && id.Obj == nil {
+						uses = true
+					}
+				}
+				return !uses
+			})
+			if uses {
+				out = append(out, rel)
+			}
+			return nil
+		})
+	}
+	return out
 }
